@@ -22,6 +22,8 @@ def main():
     out = {}
     for f in sorted(glob.glob(os.path.join(HERE, "evidence", "C*.json"))):
         e = json.load(open(f))
+        if e.get("tier") != "quick":
+            raise SystemExit("%s is %s-tier evidence: run all 19 quick checks first (tools/run_all.sh)" % (f, e.get("tier")))
         # (per-function frame obligations are enumerated from the code: a refactoring that renames or removes a helper
         #  legitimately changes that list, so they are not required by name)
         fams = sorted({family(o["name"]) for o in e["coverage"]["obligation_list"]
